@@ -113,6 +113,20 @@ PROPS = {
                  "public key, truncated, future iat with a foreign key)"],
         assumptions=["the connection kind is what RemoteAddr().Network() reports"],
     ),
+    "C04": dict(
+        lean_props="Receptor.Props.C04",
+        engines=[dict(engine="crash", pkg="pkg/workceptor", test="TestVerifCrash", n_quick=6, n_thorough=60)],
+        corr_ops={"crash": ["cycle"]},
+        facts=["crash_rewrite_atomic", "crash_scan", "crash_cmd_restart", "crash_remote_restart", "crash_remote_bind_order", "crash_register_rescans"],
+        trusted=["a SIGKILL of the process stands for a crash of the node: what had been written with write(2) is in the page cache and "
+                 "is read back by the restarted process — loss of data the kernel had not yet written to the device (power failure) is "
+                 "outside the model and outside the harness",
+                 "crash points are calls inserted into a copy of /repo's current workunitbase.go / workceptor.go at check time "
+                 "(tools/check.py instrument_*), injected by overlay; /repo carries no hook",
+                 "the daemon is this test binary running a real Workceptor with the `work` ControlFunc; command-line parsing, the "
+                 "control-service socket and the mesh are not part of it; remote units are bound to an unreachable node"],
+        assumptions=["a restarted node is looked at 1.8 s after it started (commands of the harness run for at most 1.2 s)"],
+    ),
     "C05": dict(
         lean_props="Receptor.Props.C05",
         engines=[dict(engine="results", pkg="pkg/workceptor", test="TestVerifResults", n_quick=12, n_thorough=60)],
